@@ -123,3 +123,81 @@ def check_C02(ctx):
             "(3 vocoder kinds x 2 frame periods each); I->S: random histories on bundled-voice utterances under random "
             "conditions; distinct = distinct histories / distinct trace events",
             {})
+
+
+# --------------------------------------------------------------------------- C20
+
+def check_C20(ctx):
+    q = ctx.quick()
+    mc(ctx, "Condition", S("mc", "MC_Condition.cfg"), S("mc", "MC_Condition.tla"), workers=8)
+    tla = S("gen", "Gen_Condition.tla")
+    key = lambda c: json.dumps([(h["set"], h["s"], h["arg"]) for h in c["hist"]])
+    cases = gen(ctx, "Condition_L1", S("gen", "Gen_Condition.cfg"), tla, workers=2)
+    replay_stage(ctx, "single-setter", "c20-replay", cases, distinct_key=key)
+    if not q:
+        cases = gen(ctx, "Condition_L2", S("gen", "Gen_Condition_L2.cfg"), tla, workers=4)
+        replay_stage(ctx, "setter-pairs", "c20-replay", cases, distinct_key=key)
+    cases = gen(ctx, "Condition_sim", S("gen", "Gen_Condition_sim.cfg"), tla, simulate=(150 if q else 3000, 10))
+    replay_stage(ctx, "setter-sequences", "c20-replay", cases, distinct_key=key)
+    ctx.assumptions += ["arguments are the 16 f64 / 6 usize / 8 volume literals of Gen_Condition (incl. subnormals, -0.0, +-1e300, usize::MAX); NaN is outside the property",
+                        "volume getter compared within 1e-9 dB (the implementation stores a linear gain); every other getter compared with =="]
+    return ("model_checking",
+            "S->I: every setter x every literal x every stream index from the freshly loaded bundled voice (exhaustive single steps; pairs in thorough) "
+            "plus TLC -simulate setter sequences of length 8; after every call all getters are compared with the specification's image",
+            {})
+
+
+# --------------------------------------------------------------------------- shared data
+
+BUNDLED = "/repo/models/hts_voice_nitech_jp_atr503_m001-1.05/nitech_jp_atr503_m001.htsvoice"
+
+
+def label_table_json(ctx):
+    import re
+    s = open(S("data", "LabelData.tla")).read()
+    labs = re.findall(r'^\s+"([^"]+)"', s, re.M)
+    p = ctx.path("labels.json")
+    json.dump(labs, open(p, "w"))
+    return p
+
+
+def bundled_tables_json(ctx):
+    import htsvoice
+    p = ctx.path("bundled_tables.json")
+    json.dump(htsvoice.tables(BUNDLED), open(p, "w"))
+    return p
+
+
+# --------------------------------------------------------------------------- C04
+
+def check_C04(ctx):
+    q = ctx.quick()
+    mc(ctx, "Glob", S("mc", "MC_Glob.cfg" if q else "MC_Glob_thorough.cfg"), S("mc", "MC_Glob.tla"), workers=8)
+    mc(ctx, "Voice", S("mc", "MC_Voice_quick.cfg" if q else "MC_Voice.cfg"), S("mc", "MC_Voice.tla"), workers=8)
+    cases = gen(ctx, "Voice", S("gen", "Gen_Voice.cfg" if q else "Gen_Voice_thorough.cfg"), S("gen", "Gen_Voice.tla"),
+                workers=8, timeout=3000)
+    sel = set()
+    for c in cases:
+        for st in c["says"]["streams"]:
+            for row in st["model"]["sel"]:
+                sel.update((st["name"], tuple(x)) for x in row)
+    replay_stage(ctx, "rendered-voices", "c04-replay", cases, extra_args=[label_table_json(ctx)],
+                 distinct_key=lambda c: json.dumps(c["fam"], sort_keys=True))
+    ctx.stage("selection coverage", distinct_tree_pdf_pairs=len(sel))
+    if len(sel) < 4:
+        raise ToolError("vacuous voice family: selections do not exercise the trees")
+    tp = record_stage(ctx, "bundled", "c04-record", [ctx.seed, 250 if q else 4000])
+    trace_stage(ctx, "voice", S("trace", "Trace_Voice.cfg"), S("trace", "Trace_Voice.tla"), tp,
+                reset_ev="__none__", env={"TABLES": bundled_tables_json(ctx)}, xmx="8g",
+                keyfn=lambda e, run: "bundled:%s:%s" % (e.get("ev"), e.get("model", e.get("key", ""))))
+    ctx.assumptions += [
+        "bin/htsvoice.py (lexical tokenizer of the bundled file) and harness/src/voicegen.rs (token concatenation) are trusted",
+        "labels: 16 real corpus lines (S->I); corpus lines and section-wise recombinations (I->S)",
+        "window coefficients of the bundled voice are compared as text produced by Rust's {:?} formatting of f64",
+    ]
+    return ("model_checking",
+            "S->I: every member of the TLC-enumerated voice family (states x streams x windows x stage x GV x tree shapes x "
+            "quoting x PDF salts) rendered to bytes, loaded by load_htsvoice_file / Engine::load; every (model, state, label) "
+            "selection, every PDF word bit, metadata, options, windows, engine defaults compared with the specification. "
+            "I->S: selections of the bundled voice on random labels recomputed in TLA+ from the file's tokenized text",
+            {"distinct_tree_pdf_pairs_selected": len(sel)})
